@@ -367,6 +367,8 @@ class LinearFilter(LinearFilterProperties):
           right = left + 1
           weight_right = k - left
           weight_left = 1. - weight_right
+          if isinstance(v, Stream): # Needed twice: once for each neighbour
+            v = thub(v, 2)
           pairs = [(left, v * weight_left), (right, v * weight_right)]
         for key, value in pairs:
           if key in new_poly:
